@@ -37,7 +37,7 @@ Theorem whitelist_bowl_calls_selected_only :
   forall (W : list Z) (segs : list (list event)),
     (forall i seg, nth_error segs i = Some seg -> Forall (bowl_ev_for (Z.of_nat i)) seg) ->
     Forall (ev_selected W) (wl_select W 0 segs).
-Proof. intros W segs H. apply select_only_selected. intros m seg Hm. rewrite Z.add_0_l. apply H. exact Hm. Qed.
+Proof. exact select_only_selected0. Qed.
 Print Assumptions whitelist_bowl_calls_selected_only.
 
 (** the in-sync part: whatever a successful processing of a series consumes, skipping it
@@ -67,7 +67,7 @@ Theorem reinterpret_own_type :
     match m with
     | MSH x => as_sh m = x | MSO x => as_so m = x | MBH x => as_bh m = x | MCT x => as_ct m = x
     end.
-Proof. intros [x|x|x|x] H; [apply as_sh_own|apply as_so_own|apply as_bh_own|apply as_ct_own]; exact H. Qed.
+Proof. exact own_type_lemma. Qed.
 Print Assumptions reinterpret_own_type.
 
 (** ... a BsdiffHeader read as a SyncOp carries its target index into the op type (field 1,
